@@ -152,6 +152,16 @@ def pseq(prog, t, depth=0):
         base = pseq(prog, it, depth + 1)
         need(not base.const and base.lv is not None, "comprehension over a constant list")
         return PSeq(subst(t[2], {tg: base.elem}), base.lv, base.offset, None, base.n)
+    if t[0] == "comp" and t[1] in ("list", "gen") and len(t[3]) == 1 and not t[3][0][2] and t[3][0][0][0] == "tuple" \
+            and all(x[0] == "bv" for x in t[3][0][0][1]):
+        # [a for a, _, _ in rows]: the components of the rows of another per-period list
+        from lcmsa.core import _project
+
+        tg, it, _conds = t[3][0]
+        base = pseq(prog, it, depth + 1)
+        need(not base.const and base.lv is not None, "comprehension over a constant list")
+        mapping = {bv: _project(base.elem, i, ("sub", base.elem, ("const", i))) for i, bv in enumerate(tg[1])}
+        return PSeq(subst(t[2], mapping), base.lv, base.offset, None, base.n)
     if t[0] == "sub" and t[2][0] == "const" and t[1][0] == "comp" and t[1][1] in ("gen", "list") and len(t[1][3]) == 1 \
             and callee_name(t[1][3][0][1]) == "builtins.zip" and not t[1][3][0][2]:
         # (list(col) for col in zip(*rows))[k]  ==  list(zip(*rows)[k])
@@ -384,7 +394,10 @@ def per_rules(ctx: Ctx):
     scp = scp[0]
     vf = kw(scp, "vf_arr")
     carried_ok = vf is not None and vf[0] == "carried" and lp.init.get(vf[2]) == ("const", None)
-    ctx.ob("PER1:solve:vf-carried", carried_ok, prog.where(scp),
+    # anything else that is computed from loop-carried state (a dict of arrays keyed by period, ...) is outside the
+    # vocabulary: no verdict.  A constant, a parameter or a carried value with another start is a violation.
+    derived = vf is not None and vf[0] != "carried" and any(x[0] == "carried" and x[1] == lp.id for x in walk(vf))
+    ctx.ob("PER1:solve:vf-carried", None if derived else carried_ok, prog.where(scp),
            "vf_arr of iteration t is the array computed in the previous iteration (t+1), None in the last period"
            if carried_ok else "vf_arr passed to the continuous problem is not the loop-carried value array "
            "initialised with None", lhs=vf if vf is not None else "missing")
@@ -628,10 +641,28 @@ def per_rules(ctx: Ctx):
     ctx.floor("per_period_lists", 5)
 
 
+def _resolve_elems(prog, t, depth=0):
+    """Replace ``L[i]`` by the element itself where L is a per-period list given by a comprehension."""
+    if not isinstance(t, tuple) or depth > 40:
+        return t
+    t = tuple(_resolve_elems(prog, x, depth + 1) if isinstance(x, tuple) else x for x in t)
+    if is_term(t) and t[0] == "sub" and is_term(t[1]) and t[1][0] == "comp" and is_term(t[2]) and t[2][0] not in ("const", "slice"):
+        try:
+            seq = pseq(prog, t[1])
+        except AnalysisError:
+            return t
+        if not seq.const and seq.lv is not None and seq.lv != BASE:
+            return _resolve_elems(prog, seq.at(t[2]), depth + 1)
+    return t
+
+
 def _flags(ctx, prog, factory_call, role):
     """is_last_period flag of a per-period factory call evaluated at symbolic period T."""
+    factory_call = _resolve_elems(prog, factory_call)
     for c in [factory_call, *[s for s in walk(factory_call) if s[0] == "call"]]:
         f = kw(c, "is_last_period") if c[0] == "call" else None
+        if f is not None and any(x[0] == "bv" for x in walk(f)):
+            continue  # the flag of a list built elsewhere (by a comprehension): judged where that list is consumed (PER2/PER3)
         if f is not None:
             ok = _is_last_flag(f)
             ctx.ob(f"PER4:{role}:{(callee_name(c) or 'call').split('.')[-1]}", ok if ok else None, prog.where(c),
